@@ -115,8 +115,11 @@ func c17Exec(c *c17Case) c17Outcome {
 	if c.Then != "" && out.returned && out.err != nil && out.panicked == nil {
 		// second act: the retry after a call that ran into the timeout
 		r2 := watchdog(bound, d, func() error {
-			if c.Then == "reset" {
+			switch c.Then {
+			case "reset":
 				return cl.Reset()
+			case "dialandsend":
+				return cl.DialAndSendWithContext(context.Background(), mk())
 			}
 			return cl.Send(mk())
 		})
@@ -238,6 +241,10 @@ func c17Configs() []c17Case {
 	for _, st := range []string{"noop#1", "rset#1"} {
 		out = append(out, c17Case{Cfg: smtpCfg{TLS: "none"}, Caps: []string{"8BITMIME"}, StallStep: st, Call: "reset", Then: "send"})
 		out = append(out, c17Case{Cfg: smtpCfg{TLS: "mandatory"}, Caps: []string{"STARTTLS", "8BITMIME"}, StallStep: st, Call: "reset", Then: "reset"})
+	}
+	// DialAndSend again after a DialAndSend that timed out (the server stays silent at the same step)
+	for _, st := range []string{"greet", "ehlo#1", "noop#1", "mail#1", "data#1", "eod#1", "quit"} {
+		out = append(out, c17Case{Cfg: smtpCfg{TLS: "none"}, Caps: []string{"8BITMIME"}, StallStep: st, Call: "dialandsend", Then: "dialandsend"})
 	}
 	// WithoutNoop: the connection check sends no NOOP, the deadline must be armed all the same
 	for _, st := range []string{"mail#1", "rcpt#1.1", "data#1", "content", "eod#1", "rset#1"} {
